@@ -3,7 +3,8 @@
 
   `visible S F`   what a request with feature set `F` may see of schema `S`: the registered types
                   whose required features are enabled, each with the fields whose required features
-                  are enabled and the interfaces that are themselves visible.
+                  are enabled and the interfaces that are themselves visible; a mutation / subscription root
+                  type only if its required features are enabled (fix C13/04).
   `describe D V`  the description the property statement asks for, computed from a visible schema
                   `V` as a plain comprehension over its type table: each type, field, argument,
                   input field, enum value, interface and union membership and directive exactly
@@ -29,7 +30,9 @@ def restrict (S : Schema) (F : List String) (t : TypeDef Unit) : TypeDef Unit :=
 
 /-- The schema visible to a request with features `F`. -/
 def visible (S : Schema) (F : List String) : SchemaDef Unit :=
-  { S.defn with types := (S.defn.types.filter (fun t => visibleName S F t.name)).map (restrict S F) }
+  { S.defn with types := (S.defn.types.filter (fun t => visibleName S F t.name)).map (restrict S F),
+                mutation := visibleRoot S.defn F S.defn.mutation,
+                subscription := visibleRoot S.defn F S.defn.subscription }
 
 /-- The object types of `V` that declare interface `i`. -/
 def implementers (V : SchemaDef Unit) (i : String) : List String :=
@@ -94,16 +97,19 @@ namespace ApiFu.C10
   Identities: every allocated container is `some 0`, nil containers are `none`, as
   `GetSchemaDefinition` allocates them. -/
 
-def forgetIV (a : InputValueDef Unit) : InputValueDef Id :=
+/-- `keep`: with fix patch 06 the `defaultValue` text is carried (pending, see `pendingDefault`);
+    `D` is the definition in whose context the text was printed. -/
+def forgetIV (keep : Bool) (D : SchemaDef Unit) (a : InputValueDef Unit) : InputValueDef Id :=
   { name := a.name, description := a.description, self := alloc, type := typeAtOf a.type.ref,
-    default := none, dirs := nilDirs }
+    default := pendingDefault keep (defaultData D a.type.ref a.default), dirs := nilDirs }
 
-def forgetIV0 (a : InputValueDef0 Unit) : InputValueDef0 Id :=
-  { name := a.name, description := a.description, self := alloc, type := typeAtOf a.type.ref, default := none }
+def forgetIV0 (keep : Bool) (D : SchemaDef Unit) (a : InputValueDef0 Unit) : InputValueDef0 Id :=
+  { name := a.name, description := a.description, self := alloc, type := typeAtOf a.type.ref,
+    default := pendingDefault keep (defaultData D a.type.ref a.default) }
 
-def forgetField (f : FieldDef Unit) : FieldDef Id :=
+def forgetField (keep : Bool) (D : SchemaDef Unit) (f : FieldDef Unit) : FieldDef Id :=
   { name := f.name, description := f.description, self := alloc, type := typeAtOf f.type.ref,
-    argsId := alloc, args := f.args.map forgetIV, deprecation := f.deprecation, feat := nilFeat, dirs := nilDirs }
+    argsId := alloc, args := f.args.map (forgetIV keep D), deprecation := f.deprecation, feat := nilFeat, dirs := nilDirs }
 
 def forgetEnumValue (v : EnumValueDef Unit) : EnumValueDef Id :=
   { name := v.name, description := v.description, self := alloc, deprecation := v.deprecation, dirs := nilDirs }
@@ -111,12 +117,12 @@ def forgetEnumValue (v : EnumValueDef Unit) : EnumValueDef Id :=
 /-- The shell every rebuilt type starts from (all containers nil). -/
 def shellType (t : TypeDef Unit) : TypeDef Id := { (builtinType t.name) with description := t.description }
 
-def forgetObject (t : TypeDef Unit) : TypeDef Id :=
-  { (shellType t) with kind := Kind.object, fieldsId := alloc, fields := t.fields.map forgetField,
+def forgetObject (keep : Bool) (D : SchemaDef Unit) (t : TypeDef Unit) : TypeDef Id :=
+  { (shellType t) with kind := Kind.object, fieldsId := alloc, fields := t.fields.map (forgetField keep D),
                        ifacesId := (if t.ifaces.isEmpty then none else alloc), ifaces := t.ifaces }
 
-def forgetInterface (t : TypeDef Unit) : TypeDef Id :=
-  { (shellType t) with kind := Kind.interface, fieldsId := alloc, fields := t.fields.map forgetField }
+def forgetInterface (keep : Bool) (D : SchemaDef Unit) (t : TypeDef Unit) : TypeDef Id :=
+  { (shellType t) with kind := Kind.interface, fieldsId := alloc, fields := t.fields.map (forgetField keep D) }
 
 def forgetUnion (t : TypeDef Unit) : TypeDef Id :=
   { (shellType t) with kind := Kind.union, membersId := (if t.members.isEmpty then none else alloc), members := t.members }
@@ -124,30 +130,86 @@ def forgetUnion (t : TypeDef Unit) : TypeDef Id :=
 def forgetEnum (t : TypeDef Unit) : TypeDef Id :=
   { (shellType t) with kind := Kind.enum, valuesId := alloc, values := t.values.map forgetEnumValue }
 
-def forgetInput (t : TypeDef Unit) : TypeDef Id :=
-  { (shellType t) with kind := Kind.inputObject, inputsId := alloc, inputs := t.inputs.map forgetIV }
+def forgetInput (keep : Bool) (D : SchemaDef Unit) (t : TypeDef Unit) : TypeDef Id :=
+  { (shellType t) with kind := Kind.inputObject, inputsId := alloc, inputs := t.inputs.map (forgetIV keep D) }
 
-def forgetType (t : TypeDef Unit) : TypeDef Id :=
+def forgetType (keep : Bool) (D : SchemaDef Unit) (t : TypeDef Unit) : TypeDef Id :=
   if isBuiltin t.name then builtinType t.name else
   match t.kind with
   | .scalar => shellType t
-  | .object => forgetObject t
-  | .interface => forgetInterface t
+  | .object => forgetObject keep D t
+  | .interface => forgetInterface keep D t
   | .union => forgetUnion t
   | .enum => forgetEnum t
-  | .inputObject => forgetInput t
+  | .inputObject => forgetInput keep D t
 
-def forgetDirective (x : DirectiveDef Unit) : DirectiveDef Id :=
+def forgetDirective (keep : Bool) (D : SchemaDef Unit) (x : DirectiveDef Unit) : DirectiveDef Id :=
   { name := x.name, description := x.description, self := alloc,
-    locsId := (if x.locs.isEmpty then none else alloc), locs := x.locs, argsId := alloc, args := x.args.map forgetIV0 }
+    locsId := (if x.locs.isEmpty then none else alloc), locs := x.locs, argsId := alloc, args := x.args.map (forgetIV0 keep D) }
 
 def sortDefs (l : List (TypeDef Unit)) : List (TypeDef Unit) := l.mergeSort (fun a b => decide (a.name ≤ b.name))
 
-def forgetDef (V : SchemaDef Unit) : GDef :=
-  let ts := (sortDefs V.types).map forgetType
+/-- The rebuilt definition before `setDefaultValues` (`keep = true`: default texts pending). -/
+def forgetDefP (keep : Bool) (D V : SchemaDef Unit) : GDef :=
+  let ts := (sortDefs V.types).map (forgetType keep D)
   let additional := (ts.filter (fun t => t.kind == .object && !t.ifaces.isEmpty)).map (·.name)
   { types := ts, query := V.query, mutation := V.mutation, subscription := V.subscription,
     additionalId := (if additional.isEmpty then none else alloc), additional := additional,
-    directivesId := alloc, directives := V.directives.map forgetDirective }
+    directivesId := alloc, directives := V.directives.map (forgetDirective keep D) }
+
+/-- Without fix patch 06: no defaults at all. -/
+def forgetDef (V : SchemaDef Unit) : GDef := forgetDefP false V V
+
+end ApiFu.C10
+
+namespace ApiFu.C10
+
+/-! ### With fix patch 06: the rebuilt definition keeps the default values
+
+  `forgetDefKeep V` is `forgetDef V` with the default value of every argument, input field and
+  directive argument kept as configured (for defaults of the covered classes in coercion normal
+  form — `DefaultsCovered` — this is what `GetSchemaDefinition` returns: `rebuildKeep_introspect`). -/
+
+def keepIV (a : InputValueDef Unit) : InputValueDef Id :=
+  { name := a.name, description := a.description, self := alloc, type := typeAtOf a.type.ref,
+    default := a.default, dirs := nilDirs }
+
+def keepIV0 (a : InputValueDef0 Unit) : InputValueDef0 Id :=
+  { name := a.name, description := a.description, self := alloc, type := typeAtOf a.type.ref, default := a.default }
+
+def keepField (f : FieldDef Unit) : FieldDef Id :=
+  { name := f.name, description := f.description, self := alloc, type := typeAtOf f.type.ref,
+    argsId := alloc, args := f.args.map keepIV, deprecation := f.deprecation, feat := nilFeat, dirs := nilDirs }
+
+def keepObject (t : TypeDef Unit) : TypeDef Id :=
+  { (shellType t) with kind := Kind.object, fieldsId := alloc, fields := t.fields.map keepField,
+                       ifacesId := (if t.ifaces.isEmpty then none else alloc), ifaces := t.ifaces }
+
+def keepInterface (t : TypeDef Unit) : TypeDef Id :=
+  { (shellType t) with kind := Kind.interface, fieldsId := alloc, fields := t.fields.map keepField }
+
+def keepInput (t : TypeDef Unit) : TypeDef Id :=
+  { (shellType t) with kind := Kind.inputObject, inputsId := alloc, inputs := t.inputs.map keepIV }
+
+def keepType (t : TypeDef Unit) : TypeDef Id :=
+  if isBuiltin t.name then builtinType t.name else
+  match t.kind with
+  | .scalar => shellType t
+  | .object => keepObject t
+  | .interface => keepInterface t
+  | .union => forgetUnion t
+  | .enum => forgetEnum t
+  | .inputObject => keepInput t
+
+def keepDirective (x : DirectiveDef Unit) : DirectiveDef Id :=
+  { name := x.name, description := x.description, self := alloc,
+    locsId := (if x.locs.isEmpty then none else alloc), locs := x.locs, argsId := alloc, args := x.args.map keepIV0 }
+
+def forgetDefKeep (V : SchemaDef Unit) : GDef :=
+  let ts := (sortDefs V.types).map keepType
+  let additional := (ts.filter (fun t => t.kind == .object && !t.ifaces.isEmpty)).map (·.name)
+  { types := ts, query := V.query, mutation := V.mutation, subscription := V.subscription,
+    additionalId := (if additional.isEmpty then none else alloc), additional := additional,
+    directivesId := alloc, directives := V.directives.map keepDirective }
 
 end ApiFu.C10
